@@ -571,7 +571,8 @@ def judge(chk: Check, cases: T.List[T.Dict[str, T.Any]], fixed: T.Dict[str, T.An
                 else:
                     sig = f"{head}@call{b['call']}@{norm_case(case)}"
                 chk.violation(sig, {'verdict': b, 'case': {k: case.get(k) for k in ('id', 'pfx', 'objs', 'calls', 'perm')},
-                                    'observed': case.get('out'), 'warned': case.get('warned'), 'log': case.get('log', '')})
+                                    'observed': case.get('out'), 'warned': case.get('warned'), 'log': case.get('log', ''),
+                                    'fixed': fixed})
     chk.traces += len(cases)
 
 
@@ -670,9 +671,7 @@ def main(chk: Check) -> None:
 def replay(chk: Check, data: T.Dict[str, T.Any]) -> None:
     det = data['detail']
     case = dict(det['case'])
-    res = run_tlc(FAM, 'PkgConfig_MC', cfg_text=model_cfg('S', 1, 1, 1, 1000003, 0, True), collect=['fixed.json'],
-                  timeout=600, allow_violation=False)
-    fixed = json.loads(res.collected['fixed.json'])
+    fixed = det['fixed']
     done = run_batch(([case], fixed, data.get('seed', 0), 1.0))
     judge(chk, done, fixed, 'replay')
 
